@@ -1,4 +1,5 @@
-(* C15, message level, the DEFAULT path: parse_message(text, find_groups=True) never leaks a crash.
+(* C15, segment-list level (helper of Proofs/NoCrashGrouped.v, which has the message-level theorems):
+   parse_segments(text, ..., references=root, find_groups=True) never leaks a crash.
    The group search of Model/Groups.v has these partial operations: parents_refs[-1] on an empty
    stack (IndexError), parents_refs.index(...) of an entry that is not there (ValueError),
    current_parent.repetitions[segment_name] (KeyError), `for c in p_ref[1]` / c[3] on a malformed
@@ -422,6 +423,7 @@ Proof.
   - intros s (Hc & _ & _ & Hq). split; [exact Hq|exact (proj2 Hc)].
 Qed.
 End Safe.
+Print Assumptions find_groups_safe.
 
 (* ------------------------------------------------------------------ *)
 (* the table premise, as one boolean check *)
@@ -701,3 +703,4 @@ Proof.
   apply (sp_bind Adm (Forall (nall encodable))); [exact IH|]. intros xs Hxs. cbn. constructor; assumption.
 Qed.
 End Grouped.
+Print Assumptions parse_segments_grouped_safe.
